@@ -13,6 +13,7 @@ import Mqtt.Proofs.CodecBuilt
 import Mqtt.Proofs.XlateCodec
 import Mqtt.Proofs.XlatePutUvarint
 import Mqtt.Proofs.XlateValid
+import Mqtt.Proofs.XlateHeader
 
 set_option linter.unusedSimpArgs false
 set_option maxRecDepth 8192
@@ -230,6 +231,23 @@ theorem C03_validators_are_source (q v t c : UInt8) (topic : List UInt8) :
 theorem C03_ValidConnackError_is_source (e : Err) :
     Message.ValidConnackError e = true ↔ ∃ n, 1 ≤ n ∧ n ≤ 5 ∧ e = .val "message.ConnackCode" n :=
   Mqtt.Proofs.XlateValid.ValidConnackError_char e
+
+/-- `header.Type()`: with the type/flags byte present it changes nothing and returns the model's
+`Hdr.type`; otherwise it allocates a zero byte and marks the header dirty (`XlateHeader.header_Type_alloc`) -/
+theorem C03_header_Type_is_source (h : Message.header) (h1 : h.mtypeflags.length = 1) :
+    Message.header.Type_ h = .ok (h, UInt8.ofNat (hdrOf h).type) ∧ (UInt8.ofNat (hdrOf h).type).toNat = (hdrOf h).type :=
+  ⟨Mqtt.Proofs.XlateHeader.header_Type_spec h h1, Mqtt.Proofs.XlateHeader.header_Type_toNat h⟩
+
+/-- `header.encode(dst)` — type/flags byte and remaining length — is the model's `Hdr.encode`
+(`encToRes`: an error return leaves `dst` alone; success writes the model's bytes to the front of `dst`
+and returns their number; the model's `.panic` case is empty).  `_partial`: the type/flags byte exists
+(`h1`) and the stored remaining length is not negative (`h0`; the model has a natural number — a
+negative one makes the Go code return an error: `XlateHeader.header_encode_negative`). -/
+theorem C03_header_encode_is_source_partial (h : Message.header) (h1 : h.mtypeflags.length = 1) (h0 : 0 ≤ h.remlen)
+    (dst : List UInt8) (fuel : Nat) (hf : 10 ≤ fuel) :
+    Message.header.encode fuel h dst
+      = Mqtt.Proofs.XlateHeader.encToRes h dst (Hdr.encode (hdrOf h) h.remlen.toNat dst.length) :=
+  Mqtt.Proofs.XlateHeader.header_encode_is_source h h1 h0 dst fuel hf
 
 /-- non-vacuity: a dirty SUBSCRIBE with two filters has length 2 + 2 + (2+3+1) + (2+1+1);
 PutUvarint 321 = c1 02 -/
